@@ -15,6 +15,7 @@ import (
 	"time"
 
 	"google.golang.org/protobuf/proto"
+	"google.golang.org/protobuf/types/known/durationpb"
 
 	oidcv1 "github.com/istio-ecosystem/authservice/config/gen/go/v1/oidc"
 	"github.com/istio-ecosystem/authservice/internal"
@@ -32,6 +33,15 @@ func init() {
 
 func genC20(r *Rng, tier string, idx int) *Plan {
 	p := &Plan{SchedSeed: r.U64()}
+	if idx%7 == 4 {
+		// two configurations that differ ONLY in the refresh interval of the same CA file
+		p.Mode = "two-intervals"
+		p.Spec = genSpec(r, genOpts{Filters: 1, NoDiscovery: true, NoFetch: true, ForceStore: "memory"})
+		p.Spec.IdPs[0].Scheme = "https"
+		p.Spec.Filters[0].CAFile = "ca.pem"
+		p.Ops = []Op{{ID: 1, Kind: "intervals", D: []int{0, 0, 1, 60}[r.Intn(4)], F: []int{1, 60, 600}[r.Intn(3)]}, {ID: 2, Kind: "order", D: r.Intn(2)}}
+		return p
+	}
 	if idx%7 == 5 {
 		p.Mode = "concurrent-first-load"
 		p.Policy = r.Intn(2)
@@ -77,6 +87,10 @@ func genC20(r *Rng, tier string, idx int) *Plan {
 	}
 	id := 0
 	nid := func() int { id++; return id }
+	if f.CAFile != "" && r.Chance(0.35) {
+		// the CA file is reached through symbolic links and rotated by re-pointing one (Kubernetes volume layout)
+		p.Ops = append(p.Ops, Op{ID: nid(), Kind: "layout", S: "symlinks"})
+	}
 	p.Ops = append(p.Ops, Op{ID: nid(), Kind: "cafile", S: r.Pick([]string{"ca0", "ca0", "ca1", "both"})})
 	n := r.Range(4, 18)
 	for i := 0; i < n; i++ {
@@ -151,15 +165,61 @@ func runC20(p *Plan) *Result {
 	if p.Mode == "concurrent-first-load" {
 		return runC20Concurrent(p)
 	}
+	if p.Mode == "two-intervals" {
+		return runC20TwoIntervals(p)
+	}
 	f0 := &p.Spec.Filters[0]
 	spec := *p.Spec
 	spec.Filters = append([]FilterSpec(nil), p.Spec.Filters...)
 	f := &spec.Filters[0]
 	caPath := ""
+	symlinks := false
+	volDir := ""
+	gen := 0
 	if f0.CAFile != "" {
 		caPath = filepath.Join(penv.dir, fmt.Sprintf("ca-%d.pem", os.Getpid()))
+		for _, op := range p.Ops {
+			if op.Kind == "layout" && op.S == "symlinks" {
+				symlinks = true
+			}
+		}
+		if symlinks {
+			// <vol>/ca.pem -> ..data/ca.pem ; <vol>/..data -> ..gen-N ; <vol>/..gen-N/ca.pem is the real file
+			volDir = filepath.Join(penv.dir, fmt.Sprintf("vol-%d", os.Getpid()))
+			_ = os.RemoveAll(volDir)
+			_ = os.MkdirAll(volDir, 0o700)
+			_ = os.Symlink(filepath.Join("..data", "ca.pem"), filepath.Join(volDir, "ca.pem"))
+			caPath = filepath.Join(volDir, "ca.pem")
+		}
 		f.CAFile = caPath
-		_ = os.Remove(caPath)
+		if !symlinks {
+			_ = os.Remove(caPath)
+		}
+	}
+	writeCA := func(content string, missing bool) {
+		if !symlinks {
+			if missing {
+				_ = os.Remove(caPath)
+				return
+			}
+			tmp := caPath + ".tmp"
+			_ = os.WriteFile(tmp, []byte(content), 0o600)
+			_ = os.Rename(tmp, caPath)
+			return
+		}
+		gen++
+		dir := fmt.Sprintf("..gen-%d", gen)
+		_ = os.MkdirAll(filepath.Join(volDir, dir), 0o700)
+		if !missing {
+			_ = os.WriteFile(filepath.Join(volDir, dir, "ca.pem"), []byte(content), 0o600)
+		}
+		tmp := filepath.Join(volDir, "..data_tmp")
+		_ = os.Remove(tmp)
+		_ = os.Symlink(dir, tmp)
+		_ = os.Rename(tmp, filepath.Join(volDir, "..data"))
+		if gen > 1 {
+			_ = os.RemoveAll(filepath.Join(volDir, fmt.Sprintf("..gen-%d", gen-1)))
+		}
 	}
 	inlineCA := -1
 	if f0.CAInline != "" {
@@ -415,12 +475,9 @@ func runC20(p *Plan) *Result {
 				continue
 			}
 			c, missing := caContent(op.S)
-			if missing {
-				_ = os.Remove(caPath)
-			} else {
-				tmp := caPath + ".tmp"
-				_ = os.WriteFile(tmp, []byte(c), 0o600)
-				_ = os.Rename(tmp, caPath)
+			writeCA(c, missing)
+			if symlinks {
+				w.probe("ca-rotations-by-symlink-swap")
 			}
 			events = append(events, caEvent{time.Now(), c, missing})
 			w.countFault("ca-file:" + op.S)
@@ -654,5 +711,97 @@ func runC20Concurrent(p *Plan) *Result {
 	res.Nontrivial = true
 	res.TraceHash = hash64(w.Sim.TraceString())
 	res.Summary = fmt.Sprintf("mode=concurrent-first-load loaders=%d interval=%v", n, interval)
+	return res
+}
+
+// ---- two configurations sharing one CA file with different refresh intervals -------------------------------
+
+func runC20TwoIntervals(p *Plan) *Result {
+	spec := *p.Spec
+	spec.Filters = append([]FilterSpec(nil), p.Spec.Filters...)
+	caPath := filepath.Join(penv.dir, fmt.Sprintf("tca-%d.pem", os.Getpid()))
+	spec.Filters[0].CAFile = caPath
+	_ = os.WriteFile(caPath, []byte(pki.CAs[0].PEM), 0o600)
+	ia, ib, order := 0, 60, 0
+	for _, op := range p.Ops {
+		if op.Kind == "intervals" {
+			ia, ib = op.D, op.F
+		}
+		if op.Kind == "order" {
+			order = op.D
+		}
+	}
+	if ia == ib {
+		ib = ia + 59
+	}
+	w := NewWorld(&spec, p.SchedSeed, 0, nil)
+	installHooks(w.Sim)
+	defer removeHooks()
+	w.StartNet(nil)
+	defer w.Close()
+	w.Boot()
+	if w.Rep.BootErr != nil {
+		r := w.result()
+		r.Infra = "generated configuration was rejected: " + w.Rep.BootErr.Error()
+		return r
+	}
+	idp := w.IdPs[0]
+	mk := func(secs int) *oidcv1.OIDCConfig {
+		c := proto.Clone(w.Filters[0].Cfg).(*oidcv1.OIDCConfig)
+		c.TrustedCertificateAuthorityRefreshInterval = nil
+		if secs > 0 {
+			c.TrustedCertificateAuthorityRefreshInterval = durationpb.New(time.Duration(secs) * time.Second)
+		}
+		return c
+	}
+	cfgs := []*oidcv1.OIDCConfig{mk(ia), mk(ib)}
+	ivs := []int{ia, ib}
+	if order == 1 {
+		cfgs[0], cfgs[1] = cfgs[1], cfgs[0]
+		ivs[0], ivs[1] = ivs[1], ivs[0]
+	}
+	handshake := func(c *oidcv1.OIDCConfig) error {
+		client, err := inthttp.NewHTTPClient(c, w.Rep.tlsPool, nil)
+		if err != nil {
+			return err
+		}
+		defer client.CloseIdleConnections()
+		resp, err := client.Get(idp.JWKSURL())
+		if err == nil {
+			_, _ = io.Copy(io.Discard, resp.Body)
+			_ = resp.Body.Close()
+		}
+		return err
+	}
+	// both configurations are used while the file holds CA0 (server chains to CA0)
+	for i, c := range cfgs {
+		if err := handshake(c); err != nil {
+			w.violate("C20", "trusted-server-rejected:ca-file", fmt.Sprintf("configuration with refresh interval %ds rejects a server chaining to the CA in the file: %v", ivs[i], err))
+		}
+	}
+	w.Advance(500 * time.Millisecond)
+	_ = os.WriteFile(caPath+".tmp", []byte(pki.CAs[1].PEM), 0o600)
+	_ = os.Rename(caPath+".tmp", caPath)
+	idp.ServerCA = 1
+	maxIv := ivs[0]
+	if ivs[1] > maxIv {
+		maxIv = ivs[1]
+	}
+	w.Advance(time.Duration(maxIv)*time.Second + time.Second)
+	for i, c := range cfgs {
+		err := handshake(c)
+		w.probe("handshakes-after-a-rotation")
+		switch {
+		case ivs[i] > 0 && err != nil:
+			w.violate("C20", "rotation-not-followed:configuration-differs-only-in-refresh-interval", fmt.Sprintf("the configuration with refresh interval %ds (another one for the same CA file has %ds) still rejects the NEW CA %ds after the rewrite: %v", ivs[i], ivs[1-i], maxIv+1, err))
+		case ivs[i] == 0 && err == nil:
+			w.violate("C20", "unwatched-configuration-follows-the-file", fmt.Sprintf("the configuration without refresh interval trusts the rewritten CA file although it must keep what it loaded (the other configuration polls every %ds)", ivs[1-i]))
+		}
+	}
+	w.probe("two-interval-runs")
+	res := w.result().only("C20")
+	res.Nontrivial = true
+	res.TraceHash = hash64(fmt.Sprintf("2iv/%d/%d/%d", ia, ib, order))
+	res.Summary = fmt.Sprintf("mode=two-intervals %ds/%ds order=%d", ia, ib, order)
 	return res
 }
